@@ -14,7 +14,7 @@ UNCHECKED_ARITH_CALLS = r'(wrapping_|unchecked_|overflowing_|saturating_|strict_
 
 def short(name):
     """Stable short name of a function: drop generic parameter lists."""
-    return re.sub(r"<'source, Token>|::<'source, Token>", '', name)
+    return re.sub(r"(::)?<'source, \w+>", '', name)
 
 
 def lexer_fn(crate, meth):
@@ -257,3 +257,545 @@ def rule_token_end_writers(rep, crate, cfg):
             rep.inst(rid, '%s:private:%s' % (cfg, f), trivial=True)
             if not fields.get(f, '').startswith('Restricted'):
                 rep.viol(rid, 'field-visibility:%s' % f, 'Lexer.%s is not private (%s): the writer set is not closed' % (f, fields.get(f)), 'src/lexer.rs')
+
+
+# --------------------------------------------------------------------------------------------
+# value descriptions
+# --------------------------------------------------------------------------------------------
+
+def desc(fn, op):
+    """Canonical description of an operand: 'self.f' / 'param<n>' / 'const:<v>' / 'call:<callee>(args...)' / '?'"""
+    r = trace(fn, op)
+    k = r[0]
+    if k == 'const':
+        v = const_int(r[1])
+        return 'const:%s' % (v if v is not None else r[1].get('val'))
+    if k == 'param':
+        return 'param%d' % r[1]
+    if k == 'place':
+        tp = trace_place(fn, r[1])
+        if tp:
+            root, fl = tp
+            if root[0] == 'param':
+                return ('self' if root[1] == 1 else 'param%d' % root[1]) + ''.join('.' + f for f in fl)
+            if root[0] == 'call':
+                return 'call:%s' % root[1] + ''.join('.' + f for f in fl)
+            return 'local' + ''.join('.' + f for f in fl)
+        return '?place'
+    if k == 'call':
+        t = r[2]
+        return 'call:%s(%s)' % (short(fn.callee_name(t)), ','.join(desc(fn, a) for a in t['args']))
+    if k == 'agg':
+        rhs = r[2]['rhs']
+        kd = rhs['kind']
+        nm = kd.get('adt') or ('closure:' + kd.get('closure', '')) if ('adt' in kd or 'closure' in kd) else 'tuple'
+        names = rhs['fields'] or [str(i) for i in range(len(rhs['ops']))]
+        return 'agg:%s{%s}' % (nm, ','.join('%s=%s' % (n, desc(fn, o)) for n, o in zip(names, rhs['ops'])))
+    if k == 'bin':
+        rhs = r[2]['rhs']
+        return '%s(%s,%s)' % (rhs['bop'], desc(fn, rhs['a']), desc(fn, rhs['b']))
+    if k == 'un':
+        rhs = r[2]['rhs']
+        return '%s(%s)' % (rhs['uop'], desc(fn, rhs['a']))
+    if k == 'cast':
+        return 'cast(%s)' % desc(fn, r[2]['rhs']['a'])
+    return '?' + k
+
+
+def ret_desc(fn):
+    ds = [d for d in fn.defs().get(0, []) if d[1] in fn.live_blocks()]
+    if len(ds) != 1:
+        return '?multi-return(%d)' % len(ds)
+    kind, bi, si, x = ds[0]
+    if kind == 'call':
+        return 'call:%s(%s)' % (short(fn.callee_name(x)), ','.join(desc(fn, a) for a in x['args']))
+    fake = dict(op='copy', place=dict(local=0, proj=[]))
+    return desc(fn, fake)
+
+
+SPAN = 'agg:std::ops::Range{start=self.token_start,end=self.token_end}'
+SPAN_CALL = 'call:lexer::Lexer::span(param1)'
+
+
+def norm_span(d):
+    return d.replace(SPAN_CALL, SPAN)
+
+
+# --------------------------------------------------------------------------------------------
+# C14: frame conditions, operands, field correspondence, spanned
+# --------------------------------------------------------------------------------------------
+
+# method regex -> (allowed stored fields with required value description, may pass &mut *self to)
+FRAME = {
+    r'^lexer::Lexer::<.*>::span$': ({}, None),
+    r'^lexer::Lexer::<.*>::slice$': ({}, None),
+    r'^lexer::Lexer::<.*>::remainder$': ({}, None),
+    r'^lexer::Lexer::<.*>::source$': ({}, None),
+    r'^lexer::Lexer::<.*>::range$': ({}, None),
+    r'^<lexer::Lexer<.*> as internal::LexerInternal<.*>>::read$': ({}, None),
+    r'^<lexer::Lexer<.*> as internal::LexerInternal<.*>>::offset$': ({}, None),
+    r'^<lexer::Lexer<.*> as internal::LexerInternal<.*>>::is_prefix$': ({}, None),
+    r'^<lexer::Lexer<.*> as std::iter::Iterator>::next$': ({'token_start': 'self.token_end'}, r'Logos::lex$'),
+    r'^<lexer::Lexer<.*> as internal::LexerInternal<.*>>::trivia$': ({'token_start': 'self.token_end'}, None),
+    r'^<lexer::Lexer<.*> as internal::LexerInternal<.*>>::end$': ({'token_end': 'param2'}, None),
+    r'^<lexer::Lexer<.*> as internal::LexerInternal<.*>>::end_to_boundary$': ({'token_end': 'call:source::Source::find_boundary(self.source,param2)'}, None),
+    r'^lexer::Lexer::<.*>::bump$': ({'token_end': None}, None),
+}
+
+
+def self_effects(fn):
+    """(stores: list of (field, value description, line), escapes: list of (what, callee))  for methods with a self pointer in _1"""
+    stores = []
+    escapes = []
+    for bi, si, st in fn.stmts():
+        if bi not in fn.live_blocks():
+            continue
+        if st['lhs']['local'] == 1 and fields_of(st['lhs']):
+            rhs = st['rhs']
+            val = desc(fn, rhs['a']) if rhs['rv'] == 'use' else '?' + rhs['rv']
+            stores.append((fields_of(st['lhs'])[0], val, st['line']))
+        rhs = st['rhs']
+        if rhs['rv'] in ('ref', 'rawptr') and (rhs.get('mut') or rhs['rv'] == 'rawptr') and rhs['place']['local'] == 1:
+            # who receives it?
+            l = st['lhs']['local']
+            recv = []
+            for b2, t in fn.calls():
+                for a in t['args']:
+                    p = op_place(a)
+                    if p and p['local'] == l:
+                        recv.append(fn.callee_name(t))
+            escapes.append(('.'.join(fields_of(rhs['place'])) or '*self', recv or ['?']))
+    return stores, escapes
+
+
+def rule_frames(rep, crate, cfg):
+    rid = rep.rule('M-C14a', 'frame conditions of every Lexer method: accessors store nothing and hand out no &mut; next/trivia store token_start := token_end only; end/end_to_boundary/bump store token_end only', floor=13)
+    for pat, (allowed, may_pass) in FRAME.items():
+        fn = crate.one(pat)
+        nm = pat.strip('^$')
+        if not rep.anchor(rid, 'fn %s [%s]' % (nm, cfg), fn is not None):
+            continue
+        stores, escapes = self_effects(fn)
+        rep.inst(rid, '%s:%s' % (cfg, short(fn.name)), detail=dict(stores=[(f, v) for f, v, _l in stores], escapes=escapes))
+        for f, v, line in stores:
+            if f not in allowed:
+                rep.viol(rid, 'frame:%s:stores:%s' % (short(fn.name), f), '%s stores to self.%s, which its frame condition forbids' % (fn.name, f), loc(fn, line))
+            elif allowed[f] is not None and v != allowed[f]:
+                rep.viol(rid, 'frame:%s:value:%s' % (short(fn.name), f), '%s stores %s to self.%s, expected %s' % (fn.name, v, f, allowed[f]), loc(fn, line))
+        for f in allowed:
+            if f not in [s[0] for s in stores]:
+                rep.viol(rid, 'frame:%s:missing:%s' % (short(fn.name), f), '%s no longer stores to self.%s' % (fn.name, f), loc(fn))
+        for what, recv in escapes:
+            if may_pass and what == '*self' and all(re.search(may_pass, r) for r in recv):
+                continue
+            rep.viol(rid, 'frame:%s:escape:%s' % (short(fn.name), what), '%s hands out a mutable borrow of %s to %s' % (fn.name, what, recv), loc(fn))
+        # next: the store precedes the call of lex
+        if may_pass:
+            calls = find_calls(fn, may_pass)
+            if not calls:
+                rep.viol(rid, 'frame:%s:no-lex' % short(fn.name), '%s does not call Logos::lex' % fn.name, loc(fn))
+            for bi, t in calls:
+                sb = [b for b, _s, st in stores_to_field(fn, 'token_start')]
+                if not any(fn.dominates_block(b, bi) for b in sb):
+                    rep.viol(rid, 'frame:%s:order' % short(fn.name), 'token_start := token_end does not dominate the call of Logos::lex', loc(fn, t['line']))
+                if desc(fn, t['args'][0]) not in ('param1', 'self'):
+                    rep.viol(rid, 'frame:%s:lex-arg' % short(fn.name), 'Logos::lex is not called on self', loc(fn, t['line']))
+
+
+ACCESSORS = {
+    'span': {'ws-default': [SPAN], 'logos-forbid': [SPAN]},
+}
+
+
+def rule_accessor_operands(rep, crate, cfg, forbid=False):
+    rid = rep.rule('M-C14b', 'span() = token_start..token_end; slice() slices self.source with exactly span(); remainder() slices self.source with token_end..source.len(); source() returns the field', floor=4)
+    exp_span = SPAN
+    fn = lexer_fn(crate, 'span')
+    if rep.anchor(rid, 'fn Lexer::span [%s]' % cfg, fn is not None):
+        d = ret_desc(fn)
+        rep.inst(rid, cfg + ':span', detail=d)
+        if d != exp_span:
+            rep.viol(rid, 'span:value', 'Lexer::span returns %s, expected %s' % (d, exp_span), loc(fn))
+    rem_range = 'agg:std::ops::Range{start=self.token_end,end=call:source::Source::len(self.source)}'
+    if forbid:
+        want = {'slice': 'call:std::option::Option::<T>::unwrap(call:source::Source::slice(self.source,%s))' % SPAN,
+                'remainder': 'call:std::option::Option::<T>::unwrap(call:source::Source::slice(self.source,%s))' % rem_range}
+    else:
+        want = {'slice': 'call:source::Source::slice_unchecked(self.source,%s)' % SPAN,
+                'remainder': 'call:source::Source::slice_unchecked(self.source,%s)' % rem_range}
+    for m, w in want.items():
+        fn = lexer_fn(crate, m)
+        if rep.anchor(rid, 'fn Lexer::%s [%s]' % (m, cfg), fn is not None):
+            d = norm_span(ret_desc(fn))
+            rep.inst(rid, '%s:%s' % (cfg, m), detail=d)
+            if d != w:
+                rep.viol(rid, '%s:operands' % m, 'Lexer::%s returns %s, expected %s' % (m, d, w), loc(fn))
+    fn = lexer_fn(crate, 'source')
+    if rep.anchor(rid, 'fn Lexer::source [%s]' % cfg, fn is not None):
+        d = ret_desc(fn)
+        rep.inst(rid, cfg + ':source', detail=d)
+        if d != 'self.source':
+            rep.viol(rid, 'source:value', 'Lexer::source returns %s' % d, loc(fn))
+    fn = lexer_fn(crate, 'range')
+    if fn is not None:
+        d = norm_span(ret_desc(fn))
+        rep.inst(rid, cfg + ':range', detail=d)
+        if d != SPAN:
+            rep.viol(rid, 'range:value', 'Lexer::range returns %s' % d, loc(fn))
+    for m, w in (('offset', 'self.token_start'), ('is_prefix', 'self.is_prefix')):
+        fn = internal_fn(crate, m)
+        if rep.anchor(rid, 'fn LexerInternal::%s [%s]' % (m, cfg), fn is not None):
+            d = ret_desc(fn)
+            rep.inst(rid, '%s:%s' % (cfg, m), detail=d)
+            if d != w:
+                rep.viol(rid, '%s:value' % m, 'LexerInternal::%s returns %s, expected %s' % (m, d, w), loc(fn))
+
+
+def lexer_agg_desc(fn):
+    aggs = lexer_aggregates(fn)
+    if len(aggs) != 1:
+        return None
+    bi, si, st = aggs[0]
+    rhs = st['rhs']
+    return {n: desc(fn, o) for n, o in zip(rhs['fields'], rhs['ops'])}
+
+
+CONSTRUCT = {
+    'with_extras': dict(source='param1', is_prefix='const:0', token_start='const:0', token_end='const:0', extras='param2'),
+    'partial_with_extras': dict(source='param1', is_prefix='const:1', token_start='const:0', token_end='const:0', extras='param2'),
+    'morph': dict(source='self.source', is_prefix='self.is_prefix', token_start='self.token_start', token_end='self.token_end',
+                  extras='call:std::convert::Into::into(self.extras)'),
+}
+CLONE = dict(source='self.source', is_prefix='self.is_prefix', token_start='self.token_start', token_end='self.token_end',
+             extras='call:std::clone::Clone::clone(self.extras)')
+
+
+def rule_field_correspondence(rep, crate, cfg):
+    rid = rep.rule('M-C14c', 'field correspondence of every Lexer construction: constructors start at 0..0 with the requested mode; morph and clone copy source, is_prefix, token_start, token_end from the same-named fields and convert/clone extras; new/new_partial forward', floor=6)
+    items = [(lexer_fn(crate, m), m, w) for m, w in CONSTRUCT.items()]
+    items.append((crate.one(r'^<lexer::Lexer<.*> as std::clone::Clone>::clone$'), 'clone', CLONE))
+    for fn, m, w in items:
+        if not rep.anchor(rid, 'fn Lexer::%s [%s]' % (m, cfg), fn is not None):
+            continue
+        d = lexer_agg_desc(fn)
+        rep.inst(rid, '%s:%s' % (cfg, m), detail=d)
+        if d is None:
+            rep.viol(rid, '%s:shape' % m, 'Lexer::%s does not build exactly one Lexer aggregate' % m, loc(fn))
+            continue
+        for f, v in w.items():
+            if d.get(f) != v:
+                rep.viol(rid, '%s:field:%s' % (m, f), 'Lexer::%s builds %s from %s, expected %s' % (m, f, d.get(f), v), loc(fn))
+        if ret_desc(fn).split('{')[0] != 'agg:lexer::Lexer':
+            rep.viol(rid, '%s:return' % m, 'Lexer::%s does not return the aggregate it builds' % m, loc(fn))
+    for m, tgt in (('new', 'with_extras'), ('new_partial', 'partial_with_extras')):
+        fn = lexer_fn(crate, m)
+        if rep.anchor(rid, 'fn Lexer::%s [%s]' % (m, cfg), fn is not None):
+            d = ret_desc(fn)
+            rep.inst(rid, '%s:%s' % (cfg, m), detail=d)
+            if not re.fullmatch(r'call:lexer::Lexer::%s\(param1,call:std::default::Default::default\(\)\)' % tgt, d):
+                rep.viol(rid, '%s:forward' % m, 'Lexer::%s returns %s, expected a call of %s(source, Default::default())' % (m, d, tgt), loc(fn))
+    # only the audited functions may construct a Lexer
+    for fn in crate.fns.values():
+        if lexer_aggregates(fn) and not re.search(r'::(with_extras|partial_with_extras|morph)$|Clone>::clone$', fn.name):
+            rep.viol(rid, 'constructs:%s' % short(fn.name), '%s constructs a Lexer but is not an audited constructor' % fn.name, loc(fn))
+    # Logos::lexer / lexer_with_extras
+    for m, tgt, args in (('lexer', 'new', 'param1'), ('lexer_with_extras', 'with_extras', 'param1,param2')):
+        fn = crate.one(r'^Logos::%s$' % m)
+        if rep.anchor(rid, 'fn Logos::%s [%s]' % (m, cfg), fn is not None):
+            d = ret_desc(fn)
+            rep.inst(rid, '%s:Logos::%s' % (cfg, m), detail=d)
+            if not re.fullmatch(r'call:lexer::Lexer::%s\(%s\)' % (tgt, args), d):
+                rep.viol(rid, 'Logos::%s:forward' % m, 'Logos::%s returns %s' % (m, d), loc(fn))
+
+
+def rule_spanned(rep, crate, cfg):
+    rid = rep.rule('M-C14d', 'spanned(): SpannedIter wraps the lexer unchanged; its next() is Lexer::next followed by Lexer::span on the same lexer, paired; clone clones the inner lexer; Deref/DerefMut return the inner lexer', floor=5)
+    fn = lexer_fn(crate, 'spanned')
+    if rep.anchor(rid, 'fn Lexer::spanned [%s]' % cfg, fn is not None):
+        d = ret_desc(fn)
+        rep.inst(rid, cfg + ':spanned', detail=d)
+        if d != 'agg:lexer::SpannedIter{lexer=param1}':
+            rep.viol(rid, 'spanned:value', 'Lexer::spanned returns %s' % d, loc(fn))
+    fn = crate.one(r'^<lexer::SpannedIter<.*> as std::iter::Iterator>::next$')
+    if rep.anchor(rid, 'fn SpannedIter::next [%s]' % cfg, fn is not None):
+        d = ret_desc(fn)
+        rep.inst(rid, cfg + ':SpannedIter::next', detail=d)
+        m = re.fullmatch(r'call:std::option::Option::<T>::map\(call:<lexer::Lexer as std::iter::Iterator>::next\(self\.lexer\),agg:closure:(.*)\{0=self\.lexer\}\)', d)
+        if not m:
+            rep.viol(rid, 'SpannedIter::next:shape', 'SpannedIter::next returns %s, expected self.lexer.next().map(|t| (t, self.lexer.span()))' % d, loc(fn))
+        else:
+            clo = crate.fns.get(m.group(1))
+            if clo is None:
+                rep.viol(rid, 'SpannedIter::next:closure', 'closure body not found', loc(fn))
+            else:
+                cd = ret_desc(clo)
+                rep.inst(rid, cfg + ':SpannedIter::next::closure', detail=cd)
+                if cd != 'agg:tuple{0=param2,1=call:lexer::Lexer::span(self.0)}':
+                    rep.viol(rid, 'SpannedIter::next:pair', 'the closure of SpannedIter::next returns %s, expected (token, lexer.span())' % cd, loc(clo))
+    fn = crate.one(r'^<lexer::SpannedIter<.*> as std::clone::Clone>::clone$')
+    if rep.anchor(rid, 'fn SpannedIter::clone [%s]' % cfg, fn is not None):
+        d = ret_desc(fn)
+        rep.inst(rid, cfg + ':SpannedIter::clone', detail=d)
+        if d != 'agg:lexer::SpannedIter{lexer=call:<lexer::Lexer as std::clone::Clone>::clone(self.lexer)}':
+            rep.viol(rid, 'SpannedIter::clone:shape', 'SpannedIter::clone returns %s' % d, loc(fn))
+    for tr, m in (('Deref', 'deref'), ('DerefMut', 'deref_mut')):
+        fn = crate.one(r'^<lexer::SpannedIter<.*> as std::ops::%s>::%s$' % (tr, m))
+        if rep.anchor(rid, 'fn SpannedIter::%s [%s]' % (m, cfg), fn is not None):
+            d = ret_desc(fn)
+            rep.inst(rid, '%s:SpannedIter::%s' % (cfg, m), detail=d)
+            if d != 'self.lexer':
+                rep.viol(rid, 'SpannedIter::%s:value' % m, 'SpannedIter::%s returns %s' % (m, d), loc(fn))
+
+
+WRITERS = {
+    'token_start': {
+        r'^lexer::Lexer::<.*>::with_extras$': 'constructor', r'^lexer::Lexer::<.*>::partial_with_extras$': 'constructor',
+        r'^lexer::Lexer::<.*>::morph$': 'copy', r'^<lexer::Lexer<.*> as std::clone::Clone>::clone$': 'copy',
+        r'^<lexer::Lexer<.*> as std::iter::Iterator>::next$': ':= token_end', r'^<lexer::Lexer<.*> as internal::LexerInternal<.*>>::trivia$': ':= token_end'},
+    'is_prefix': {
+        r'^lexer::Lexer::<.*>::with_extras$': 'false', r'^lexer::Lexer::<.*>::partial_with_extras$': 'true',
+        r'^lexer::Lexer::<.*>::morph$': 'copy', r'^<lexer::Lexer<.*> as std::clone::Clone>::clone$': 'copy'},
+    'source': {
+        r'^lexer::Lexer::<.*>::with_extras$': 'param', r'^lexer::Lexer::<.*>::partial_with_extras$': 'param',
+        r'^lexer::Lexer::<.*>::morph$': 'copy', r'^<lexer::Lexer<.*> as std::clone::Clone>::clone$': 'copy'},
+    'token_end': TOKEN_END_WRITERS,
+}
+
+
+def rule_writers(rep, crate, cfg, fields, rid_name='M-C03a'):
+    rid = rep.rule(rid_name, 'closed writer sets of the private Lexer fields %s' % ','.join(fields), floor=sum(len(WRITERS[f]) for f in fields))
+    for f in fields:
+        check_writer_set(rep, rid, crate, f, WRITERS[f], cfg)
+    flds = dict((n, v) for n, v in crate.adts.get('lexer::Lexer', []))
+    if rep.anchor(rid, 'struct lexer::Lexer [%s]' % cfg, bool(flds)):
+        for f in fields:
+            if not flds.get(f, '').startswith('Restricted'):
+                rep.viol(rid, 'field-visibility:%s' % f, 'Lexer.%s is not private (%s): the writer set is not closed' % (f, flds.get(f)), 'src/lexer.rs')
+
+
+# --------------------------------------------------------------------------------------------
+# C05: unsafe inventory, bounds check dominates the raw read
+# --------------------------------------------------------------------------------------------
+
+def unsafe_ops(fn):
+    """unsafe operations of a body: calls of unsafe fns (outside std's format_args expansion) and raw pointer
+    dereferences."""
+    ops = []
+    for bi, t in fn.calls():
+        c = t['callee']
+        if c.get('unsafe'):
+            name = fn.callee_name(t)
+            if t.get('tmacro') and re.match(r'(core|std)::fmt::', name):
+                continue
+            ops.append(('call', name, t['line']))
+    for bi, si, st in fn.stmts():
+        if bi not in fn.live_blocks():
+            continue
+        places = [st['lhs']]
+        rhs = st['rhs']
+        for k in ('a', 'b'):
+            p = op_place(rhs.get(k) or {})
+            if p:
+                places.append(p)
+        if 'place' in rhs:
+            places.append(rhs['place'])
+        for o in rhs.get('ops', ()):
+            p = op_place(o)
+            if p:
+                places.append(p)
+        for p in places:
+            if has_raw_deref(p):
+                ops.append(('rawderef', place_str(p), st['line']))
+    return ops
+
+
+UNSAFE_TABLE = {
+    # function regex -> list of (kind, callee regex) allowed, with the reason
+    r'^<str as source::Source>::read$': [('call', r'ptr::const_ptr::<impl \*const T>::add$'), ('call', r'source::Chunk::from_ptr$')],
+    r'^<\[u8\] as source::Source>::read$': [('call', r'ptr::const_ptr::<impl \*const T>::add$'), ('call', r'source::Chunk::from_ptr$')],
+    r'^<str as source::Source>::slice_unchecked$': [('call', r'str::<impl str>::get_unchecked$')],
+    r'^<\[u8\] as source::Source>::slice_unchecked$': [('call', r'slice::<impl \[T\]>::get_unchecked$')],
+    r'^<T as source::Source>::slice_unchecked$': [('call', r'source::Source::slice_unchecked$')],
+    r'^lexer::Lexer::<.*>::slice$': [('call', r'source::Source::slice_unchecked$')],
+    r'^lexer::Lexer::<.*>::remainder$': [('call', r'source::Source::slice_unchecked$')],
+    r"^<u8 as source::Chunk<'source>>::from_ptr$": [('rawderef', r'.*')],
+    r"^<&'source \[u8; N\] as source::Chunk<'source>>::from_ptr$": [('rawderef', r'.*')],
+}
+
+
+def rule_unsafe_inventory(rep, crate, cfg, expect_empty=False):
+    rid = rep.rule('M-C05a', 'inventory of unsafe operations in crate logos: every call of an unsafe fn and every raw-pointer dereference is in the audited table (11 operations in 9 functions); forbid_unsafe build has none and carries forbid(unsafe_code)', floor=(0 if expect_empty else 11))
+    total = 0
+    for fn in sorted(crate.fns.values(), key=lambda f: f.name):
+        ops = unsafe_ops(fn)
+        if not ops:
+            continue
+        allowed = None
+        for pat, al in UNSAFE_TABLE.items():
+            if re.search(pat, fn.name):
+                allowed = list(al)
+        seen = {}
+        for kind, what, line in ops:
+            total += 1
+            k = '%s:%s:%s:%s' % (cfg, short(fn.name), kind, what if kind == 'call' else 'ptr')
+            seen[k] = seen.get(k, 0) + 1
+            rep.inst(rid, '%s#%d' % (k, seen[k]), detail=dict(fn=fn.name, kind=kind, what=what))
+            ok = False
+            if allowed and not expect_empty:
+                for i, (ak, apat) in enumerate(allowed):
+                    if ak == kind and re.search(apat, what):
+                        ok = True
+                        if kind == 'call':
+                            allowed.pop(i)   # each audited call is allowed once
+                        break
+            if not ok:
+                rep.viol(rid, 'unsafe-op:%s:%s:%s' % (short(fn.name), kind, what if kind == 'call' else 'ptr'),
+                         'unaudited unsafe operation in %s: %s %s' % (fn.name, kind, what), loc(fn, line))
+    lint = crate.meta.get('unsafe_code_lint', '')
+    if expect_empty:
+        rep.inst(rid, cfg + ':forbid(unsafe_code)', detail=lint[:200])
+        if 'forbid' not in lint.lower():
+            rep.viol(rid, 'forbid-attr', 'the forbid_unsafe build does not carry #![forbid(unsafe_code)] (crate attrs: %r)' % lint[:200], 'src/lib.rs')
+    # declared unsafe fns
+    for fn in crate.fns.values():
+        if fn.is_unsafe and not re.search(r'::(slice_unchecked|from_ptr)$', fn.name):
+            rep.viol(rid, 'unsafe-fn:%s' % short(fn.name), 'unaudited unsafe fn %s' % fn.name, loc(fn))
+
+
+def is_size_const(op):
+    return op.get('op') == 'const' and 'Chunk::SIZE' in (op.get('cdbg') or '')
+
+
+def rule_read_bounds(rep, crate, cfg):
+    rid = rep.rule('M-C05b', 'Source::read (default build): the raw pointer read is dominated by the true edge of offset.checked_add(Chunk::SIZE).is_some_and(|end| end <= self.len()) for the same offset and receiver; Some is returned exactly on that edge, None on the other', floor=2)
+    for ty in ('str', r'\[u8\]'):
+        fn = crate.one(r'^<%s as source::Source>::read$' % ty)
+        tyn = ty.replace('\\', '')
+        if not rep.anchor(rid, 'fn <%s as Source>::read [%s]' % (tyn, cfg), fn is not None):
+            continue
+        key = '%s:%s::read' % (cfg, tyn)
+        rep.inst(rid, key)
+        where = loc(fn)
+        # guards
+        guards = []
+        for sb in switches(fn):
+            c = cond_of_switch(fn, sb)
+            if not c or c['root'][0] != 'call':
+                continue
+            t = c['root'][2]
+            if not re.search(r'Option::<T>::is_some_and$', fn.callee_name(t)):
+                continue
+            a0 = trace(fn, t['args'][0])
+            if a0[0] != 'call' or not re.search(r'::checked_add$', fn.callee_name(a0[2])):
+                continue
+            ca = a0[2]['args']
+            if desc(fn, ca[0]) != 'param2' or not is_size_const(ca[1]):
+                continue
+            a1 = trace(fn, t['args'][1])
+            if a1[0] != 'agg' or 'closure' not in a1[2]['rhs']['kind']:
+                continue
+            clo = crate.fns.get(a1[2]['rhs']['kind']['closure'])
+            cap = [desc(fn, o) for o in a1[2]['rhs']['ops']]
+            if clo is None or cap != ['param1']:
+                continue
+            r = ret_root(clo)
+            okc = False
+            if r and r[0] == 'bin':
+                rhs = r[2]['rhs']
+                da, db = desc(clo, rhs['a']), desc(clo, rhs['b'])
+                is_len = lambda d: re.fullmatch(r'call:(core::str::<impl str>::len|core::slice::<impl \[T\]>::len|source::Source::len)\(self\.0\)', d) is not None or d == 'PtrMetadata(self.0)'
+                if rhs['bop'] == 'Le' and da == 'param2' and is_len(db):
+                    okc = True
+                if rhs['bop'] == 'Ge' and db == 'param2' and is_len(da):
+                    okc = True
+            if okc:
+                guards.append(c)
+        if not guards:
+            rep.viol(rid, '%s::read:no-guard' % tyn, '<%s as Source>::read has no `offset.checked_add(Chunk::SIZE).is_some_and(|end| end <= self.len())` guard' % tyn, where)
+            continue
+        adds = find_calls(fn, r'ptr::const_ptr::<impl \*const T>::add$')
+        frs = find_calls(fn, r'source::Chunk::from_ptr$')
+        if not adds or not frs:
+            rep.viol(rid, '%s::read:no-raw-read' % tyn, 'raw read (as_ptr().add / from_ptr) not found', where)
+        for bi, t in adds + frs + find_calls(fn, r'::as_ptr$'):
+            if not any(fn.edge_dominates((g['bb'], g['t']), bi) for g in guards):
+                rep.viol(rid, '%s::read:unguarded:%s' % (tyn, fn.callee_name(t).rsplit('::', 1)[-1]), 'unsafe call %s is not dominated by the bounds check' % fn.callee_name(t), loc(fn, t['line']))
+        for bi, t in adds:
+            d0, d1 = desc(fn, t['args'][0]), desc(fn, t['args'][1])
+            if d1 != 'param2' or not re.fullmatch(r'call:core::(str::<impl str>|slice::<impl \[T\]>)::as_ptr\(param1\)', d0):
+                rep.viol(rid, '%s::read:add-operands' % tyn, 'pointer arithmetic is %s.add(%s), expected self.as_ptr().add(offset)' % (d0, d1), loc(fn, t['line']))
+        for bi, t in frs:
+            d0 = desc(fn, t['args'][0])
+            if not d0.startswith('call:std::ptr::const_ptr::<impl *const T>::add('):
+                rep.viol(rid, '%s::read:from_ptr-operand' % tyn, 'from_ptr reads %s' % d0, loc(fn, t['line']))
+        # return discipline
+        for kind, bi, si, x in fn.defs().get(0, []):
+            if bi not in fn.live_blocks():
+                continue
+            if kind == 'stmt' and x['rhs']['rv'] == 'agg':
+                var = x['rhs']['kind'].get('variant')
+                dom_t = any(fn.edge_dominates((g['bb'], g['t']), bi) for g in guards)
+                dom_f = any(fn.edge_dominates((g['bb'], g['f']), bi) for g in guards)
+                if var == 'Some' and not dom_t:
+                    rep.viol(rid, '%s::read:some-unguarded' % tyn, 'Some(..) is returned outside the bounds-check edge', loc(fn, x['line']))
+                if var == 'Some' and not desc(fn, x['rhs']['ops'][0]).startswith('call:source::Chunk::from_ptr('):
+                    rep.viol(rid, '%s::read:some-payload' % tyn, 'Some payload is not the chunk read', loc(fn, x['line']))
+                if var == 'None' and not dom_f:
+                    rep.viol(rid, '%s::read:none-on-success' % tyn, 'None is returned although the bounds check succeeded', loc(fn, x['line']))
+            else:
+                rep.viol(rid, '%s::read:return-shape' % tyn, 'unexpected definition of the return value', where)
+    # Deref wrapper forwards
+    fn = crate.one(r'^<T as source::Source>::read$')
+    if rep.anchor(rid, 'fn <T as Source>::read [%s]' % cfg, fn is not None):
+        d = ret_desc(fn)
+        rep.inst(rid, cfg + ':T::read', detail=d)
+        if not re.fullmatch(r'call:source::Source::read\(call:std::ops::Deref::deref\(param1\),param2\)', d):
+            rep.viol(rid, 'T::read:forward', 'Deref wrapper read returns %s' % d, loc(fn))
+    fn = internal_fn(crate, 'read')
+    if rep.anchor(rid, 'fn LexerInternal::read [%s]' % cfg, fn is not None):
+        d = ret_desc(fn)
+        rep.inst(rid, cfg + ':LexerInternal::read', detail=d)
+        if d != 'call:source::Source::read(self.source,param2)':
+            rep.viol(rid, 'LexerInternal::read:forward', 'LexerInternal::read returns %s, expected self.source.read(offset)' % d, loc(fn))
+
+
+def rule_read_forbid(rep, crate, cfg):
+    rid = rep.rule('M-C05d', 'Source::read (forbid_unsafe build): the chunk is taken from the checked sub-slice offset..offset.checked_add(Chunk::SIZE)? of the same source (same Some-condition as the raw read)', floor=2)
+    for ty in ('str', r'\[u8\]'):
+        fn = crate.one(r'^<%s as source::Source>::read$' % ty)
+        tyn = ty.replace('\\', '')
+        if not rep.anchor(rid, 'fn <%s as Source>::read [%s]' % (tyn, cfg), fn is not None):
+            continue
+        rep.inst(rid, '%s:%s::read' % (cfg, tyn))
+        where = loc(fn)
+        fs = find_calls(fn, r'source::Chunk::from_slice$')
+        if len(fs) != 1:
+            rep.viol(rid, '%s::read:from_slice' % tyn, 'expected exactly one Chunk::from_slice call', where)
+            continue
+        sl = fn.slice(fs[0][1]['args'][0])
+        slice_calls = [(b, t) for b, t in sl.call_terms if re.search(r'(source::Source>?::slice|::get)$', fn.callee_name(t))]
+        if len(slice_calls) != 1:
+            rep.viol(rid, '%s::read:no-checked-slice' % tyn, 'from_slice argument does not come from one checked slice()/get() call', where)
+            continue
+        b, t = slice_calls[0]
+        rng = trace(fn, t['args'][1])
+        ok = False
+        if rng[0] == 'agg' and rng[2]['rhs']['kind'].get('adt') == 'std::ops::Range':
+            ops = rng[2]['rhs']['ops']
+            start = desc(fn, ops[0])
+            es = fn.slice(ops[1])
+            chk = [(bb, tt) for bb, tt in es.call_terms if re.search(r'::checked_add$', fn.callee_name(tt))]
+            if start == 'param2' and len(chk) == 1 and desc(fn, chk[0][1]['args'][0]) == 'param2' and is_size_const(chk[0][1]['args'][1]) \
+                    and not (es.binops & ARITH_BINOPS) and not es.calls_matching(UNCHECKED_ARITH_CALLS + r'|unwrap_or'):
+                ok = True
+        if not ok:
+            rep.viol(rid, '%s::read:range' % tyn, 'the sub-slice range is not offset..offset.checked_add(Chunk::SIZE)?', loc(fn, t['line']))
+        recv = fn.slice(t['args'][0])
+        if 1 not in recv.params:
+            rep.viol(rid, '%s::read:receiver' % tyn, 'the sub-slice is not taken from self', loc(fn, t['line']))
+        for kind, bi, si, x in fn.defs().get(0, []):
+            if bi not in fn.live_blocks():
+                continue
+            nm = fn.callee_name(x) if kind == 'call' else ''
+            if not re.search(r'(Chunk::from_slice|FromResidual<.*>>::from_residual)$', nm):
+                rep.viol(rid, '%s::read:return-shape' % tyn, 'unexpected definition of the return value', where)
